@@ -430,6 +430,19 @@ def main():
     except Exception as e:
         status['strtrans'] = 'failed: %s' % e
     try:
+        import fwdtrans
+        g7 = dict(golden)
+        txt, fst = fwdtrans.lean_file(g7)
+        changed |= write_if_changed(os.path.join(GEN, 'Loaders.lean'), txt)
+        for k_, v_ in fst.items():
+            status['functions'][k_] = dict(v_, lean='Fwd.' + k_[4:], params=[], bools=[], selfattrs=[], absparams=[], nret=1, abscalls=[])
+        if update:
+            for k_, v_ in g7.items():
+                if k_.startswith('fwd:'):
+                    golden[k_] = v_
+    except Exception as e:
+        status['fwd'] = 'failed: %s' % e
+    try:
         import cachesites
         txt, sites = cachesites.lean_table(os.environ.get('IXPE_REPO', os.path.dirname(os.path.dirname(importlib.import_module('ixpeobssim').__file__))))
         changed |= write_if_changed(os.path.join(GEN, 'CacheSites.lean'), txt)
